@@ -9,7 +9,7 @@ CHECKS = {
 CHECKS.update({
     "C03": ("6/C03", "All schedules (gate releases, external sends, timer firings) of the engine catalog plus idle-specific programs; at the instant an idle announcement is written the runner's queues, in-progress sets, retry heap, tick buffer and mailbox are inspected; work conservation checked in every quiescent live state; every retry wake-up must be delivered at the virtual instant it was scheduled for (programs include a workflow timeout plus two staggered retry delays).",
             "Three genuine defects are recorded in known_findings.json (idle announced with mail in the mailbox / during a retry delay); any other violation is reported.", ENGINE_TECH),
-    "C04": ("6/C04", "21 outcome causes (stops, races, raises, handler failure, non-event return, failing user retry code, cancel and timeout at every quiescent point) x all schedules; each maximal execution is checked for exactly one outcome, one matching terminal event, nothing after it, and a terminating stream consumer.",
+    "C04": ("6/C04", "21 outcome causes (stops, races, raises, handler failure, non-event return, failing user retry code, cancel and timeout at every quiescent point), stream writers racing every kind of end, continued / resumed runs, a run id reused for a later run, cancel_run() of a run queued behind num_concurrent_runs x all schedules; each maximal execution is checked for exactly one outcome, one matching terminal event, nothing after it, a terminating stream consumer, and a stream that equals what the run published.",
             "Bounded small-scope claim; deviation bound 4 on the largest race program in the quick tier.", ENGINE_TECH),
     "C11": ("6/C11", "At every quiescent point of every schedule of the engine catalog (incl. resumed runs, and runs continued from the context of a run that ended with work left over) the live runner state is compared with rebuild_state_from_ticks(init_state, recorded ticks) and with ctx.to_dict()/running_steps.",
             "Timestamps masked, as the property allows.", ENGINE_TECH),
@@ -19,9 +19,9 @@ CHECKS.update({
 
 GRID_TECH = "exhaustive enumeration of a finite configuration grid, each case executed on the real engine under the virtual clock and compared with an independent reference"
 CHECKS.update({
-    "C05": ("6/C05", "Complete grid of retry policies (attempt/delay budgets, |,& compositions, retryable vs not, legacy constructors, seedless custom policy) x step durations x delays x clock configurations (wall/monotonic bases differ/equal, wall-clock adapter) x failure-event kind; executions, retry_info and failure-event fields are compared with a reference computed from really elapsed virtual time.",
+    "C05": ("6/C05", "Complete grid of retry policies (attempt/delay budgets as numbers or timedeltas, flat and nested |,& compositions - thorough: all pairs of 12 atoms -, retryable vs not, legacy constructors, seedless custom policy) x step durations x delays x clock configurations (wall/monotonic bases differ/equal, wall-clock adapter) x failure-event kind; executions, retry_info and failure-event fields are compared with a reference computed from really elapsed virtual time.",
             "wait_fixed delays only (delay indexing is C06). The clock defect found by this check was repaired (fix: c88b71f).", GRID_TECH),
-    "C06": ("6/C06", "Every listed wait-strategy instance x 1..4(6) retries; the gap between the k-th failure and the k-th retry of a real failing step on the virtual clock is compared with the tenacity-documented delay.",
+    "C06": ("6/C06", "Every listed wait-strategy instance (incl. timedelta-configured ones and exponential bases that overflow a double) x 1..4(6) retries; the gap between the k-th failure and the k-th retry of a real failing step on the virtual clock is compared with the tenacity-documented delay.",
             "One genuine defect (1-based count into 0-based strategies) recorded as known findings per strategy shape; other shapes/clauses still alarm.", GRID_TECH),
 })
 
@@ -31,14 +31,14 @@ CHECKS.update({
 })
 
 CHECKS.update({
-    "C09": ("6/C09", "Expected lists [A,B],[A,A,B],[A,B,C],[A,A] x arrival multisets (surplus events, value-equal events tracked by identity, two rounds) x collector num_workers 1..4 x every completion order of the collecting invocations (+ a collecting step that fails once and is retried); the multiset of returned lists must equal the list-buffer reference on some serial order of the arrivals and no event may be in two lists.",
+    "C09": ("6/C09", "Expected lists [A,B],[A,A,B],[A,B,C],[A,A] x arrival multisets (surplus events, value-equal events tracked by identity, two rounds) x collector num_workers 1..4 x every completion order of the collecting invocations (+ a collecting step that fails once and is retried, + one that suspends in wait_for_event while it holds a full set); the multiset of returned lists must equal the list-buffer reference on some serial order of the arrivals and no event may be in two lists.",
             "Linearizability against the sequential semantics, which the num_workers=1 programs bind to the implementation. One genuine defect (double completion from one snapshot) recorded.", ENGINE_TECH),
-    "C10": ("6/C10", "Waits with/without requirements, timeouts, explicit/implicit ids, two sequential waits, concurrent inputs x response scripts (matching, duplicate, non-matching, subclass, early, late) x serialize+resume at every quiescent point x all arrival / timer / completion orders within the deviation bound.",
+    "C10": ("6/C10", "Waits with/without requirements, timeouts, explicit/implicit ids (also two waits whose default ids differ only in requirement values), two sequential waits, a step that does other work before it waits, concurrent inputs x response scripts (matching, duplicate, non-matching, subclass, early, late) x serialize+resume at every quiescent point x all arrival / timer / completion orders within the deviation bound.",
             "Two genuine root causes (match while a replay is in flight; rehydration of requirement waiters after resume) are recorded with root-cause context in the witness; violations outside those contexts or clauses alarm.", ENGINE_TECH),
 })
 
 CHECKS.update({
-    "C12": ("6/C12", "Deterministic workflows (chain+store, fan-in, retries with zero/positive delay incl. exhaustion, catch_error budgets, waits) x every schedule x one ctx.to_dict()->JSON->from_dict resume at every quiescent point; result, store, retry numbers of re-executed work, total executions and round-trip stability compared with the uninterrupted runs (first shown to agree on all schedules).",
+    "C12": ("6/C12", "Deterministic workflows (chain+store, fan-in, retries with zero/positive delay incl. exhaustion, catch_error budgets, waits) x every schedule x one (thorough and one quick program: two) ctx.to_dict()->JSON->from_dict resume(s) at every quiescent point; result, store, retry numbers of re-executed work, total executions and round-trip stability compared with the uninterrupted runs (first shown to agree on all schedules).",
             "Fix 8340a80 repaired the lost retry count / recovery budget of in-progress work; a delayed retry lost by to_dict() and the waiter rehydration defect remain recorded findings.", ENGINE_TECH),
 })
 
@@ -48,17 +48,17 @@ CHECKS.update({
 })
 
 CHECKS.update({
-    "C22": ("6/C22", "Dependency graphs over <=3 resources (sync/async factories with an inner suspension point, cached/non-cached, shared sub-dependency, 1-,2-,3-cycles) injected into two overlapping steps, two invocations of a num_workers=2 step, and staggered second users x all interleavings; factory call counts, identities and cycle errors vs the documented rules.",
+    "C22": ("6/C22", "Dependency graphs over <=3 resources (sync/async factories with an inner suspension point, cached/non-cached, shared sub-dependency, 1-,2-,3-cycles) injected into two overlapping steps, two invocations of a num_workers=2 step, staggered second users, non-LIFO completion of two factories, and resolutions after one that raised (transient factory fault) x all interleavings; factory call counts, identities and cycle errors vs the documented rules.",
             "One genuine defect (per-manager resolution bookkeeping: false cycle error under concurrency) recorded; caching clauses are exercised on the staggered schedules where resolutions do not overlap.", ENGINE_TECH),
-    "C30": ("6/C30", "2-4 runs of one instance with num_concurrent_runs 1..3 / unlimited, started together or staggered, a second instance, hard cancel of a queued run x all start/finish interleavings; runs executing steps counted in every quiescent state.",
+    "C30": ("6/C30", "2-4 runs of one instance with num_concurrent_runs 1..3 / unlimited, started together or staggered, a second instance, hard cancel of a queued run, a successor instance created after instances with another limit were garbage-collected x all start/finish interleavings; runs executing steps counted in every quiescent state.",
             "Bounded small-scope claim.", ENGINE_TECH),
-    "C31": ("6/C31", "Timeout (also simultaneous with a step completion) or cancel_run arriving at every quiescent point of chain, fan-out and delayed-retry workflows x all completion orders; terminal events, active_steps, no step after cancel, serializable context and completing resumed run.",
+    "C31": ("6/C31", "Timeout (also simultaneous with a step completion) or cancel_run arriving at every quiescent point of chain, fan-out, delayed-retry and wait+retry workflows x all completion orders, one or two cancel/resume cycles; terminal events, active_steps, no step after cancel, serializable context and completing resumed run.",
             "One genuine finding (cancel during a retry delay loses the retry) recorded.", ENGINE_TECH),
 })
 
 SCHED_TECH = "stateless exhaustive interleaving exploration of the real async code on a virtual asyncio loop (explorer-chosen starts, releases, cancellations, timer firings, done-set orders)"
 CHECKS.update({
-    "C25": ("6/C25", "2-4 tasks on overlapping keys started at explorer-chosen points, up to 2 cancellations at any quiescent point (also in the same loop iteration as a release, both orders) x all interleavings of the real KeyedLock; occupancy per key, no waiting without a holder, every non-cancelled task enters, no lock state left.",
+    "C25": ("6/C25", "2-4 tasks on overlapping keys (single, back-to-back and nested sections) started at explorer-chosen points, up to 2 cancellations at any quiescent point (also in the same loop iteration as a release, both orders) x all interleavings of the real KeyedLock; occupancy per key, no waiting without a holder, every non-cancelled task enters, no lock state left.",
             "asyncio delivers cancellation only at suspension points; uncontended Lock.acquire does not suspend.", SCHED_TECH),
     "C29": ("6/C29", "merge_generators over 1-3 sources (<=3 items, optional failing source) x all release orders, simultaneous completions and all iteration orders of the done set; debounced_sorted_prefix over 2-5 items released at explorer-chosen points relative to the debounce / max-window timers incl. the same loop iteration as the window closing.",
             "Fix 28a93c4 repaired the late-item-overtakes-burst defect this check found.", SCHED_TECH),
@@ -73,7 +73,7 @@ CHECKS.update({
 })
 
 CHECKS.update({
-    "C18": ("6/C18", "Event shapes (plain, typed, nested model, Start/Stop/InputRequired/HumanResponse events and subclasses, failure events with 12 exception kinds) x a JSON value alphabet (None, bools, ints > 2^53, floats, unicode/escape strings, nested containers depth <=2(4), marker-like keys) in dynamic fields, results and Any-typed fields x 9 channels (JsonSerializer plain/nested, EventEnvelopeWithMetadata by qualified name / by registry, EventEnvelope.parse, persisted ticks add_event / publish_event / step_result payloads / step input) through real JSON text; class, typed fields, dynamic fields, result, exception type+message compared.",
+    "C18": ("6/C18", "Event shapes (plain, typed, nested model, Start/Stop/InputRequired/HumanResponse events and subclasses, failure events with 15 exception kinds incl. KeyError / ValueError / LookupError subclasses; typed fields left to default factories) x a JSON value alphabet (None, bools, ints > 2^53, floats, unicode/escape strings, nested containers depth <=2(4), marker-like keys) in dynamic fields, results and Any-typed fields x 9 channels (JsonSerializer plain/nested, EventEnvelopeWithMetadata by qualified name / by registry, EventEnvelope.parse, persisted ticks add_event / publish_event / step_result payloads / step input) through real JSON text; class, typed fields, dynamic fields, result, exception type+message compared.",
             "Fixes f430db9 (StopEvent dropped dynamic fields) and ea5f1bd (KeyError message re-quoted) repaired the defects this check found. AddWaiter.requirements (documented as not serializable) are outside the property.", ENUM_TECH),
 })
 
@@ -83,7 +83,7 @@ CHECKS.update({
 })
 
 CHECKS.update({
-    "C20": ("6/C20", "2-4 tasks, one operation each from {set, set_state (whole-state replace), clear, edit_state blocks that read, suspend at 1-2 harness gates and write} on colliding keys, started at explorer-chosen points; every interleaving of starts and gate releases executed on the real InMemoryStateStore and SqliteStateStore (DB file) on the virtual loop; final state must equal some permutation of the operations applied atomically to a plain dict (brute force).",
+    "C20": ("6/C20", "2-4 tasks, one operation each from {set, set_state (whole-state replace), clear, edit_state blocks that read, suspend at 1-2 harness gates and write} on colliding keys (DictState and a typed Child(Base) state with parent-type merges), started at explorer-chosen points, optionally one caller giving up (task.cancel) on a pending operation; every interleaving of starts and gate releases executed on the real InMemoryStateStore and SqliteStateStore (DB file) on the virtual loop; final state must equal some permutation of the operations applied atomically to a plain dict (brute force).",
             "All interleavings of each program are explored (no deviation bound). Fix 6ffe178 repaired the unlocked SqliteStateStore.set_state this check found.", SCHED_TECH),
 })
 
@@ -146,7 +146,7 @@ CHECKS.update({
 })
 
 CHECKS.update({
-    "C15": ("6/C15", "9 outcome programs (success, two workers racing to stop, step failure without / after retries, @catch_error handler that recovers / fails itself, workflow timeout, cancel_handler at every quiescent point, cancel racing the timeout) on the real server stack over MemoryWorkflowStore and SqliteWorkflowStore x 0-2 transient failures of handler-record writes and of event-log writes at explorer-chosen attempts (inside the [0.5, 3] s backoff budget) x all schedules within the deviation bound incl. timer firings; every status written is logged (terminal never followed by running) and the final handler record is compared with how the engine's run task actually ended.",
+    "C15": ("6/C15", "12 outcome programs (success, two workers racing to stop, an engine-side failure (un-persistable event), cancel of a waiting run before / after its idle release on both stacks, step failure without / after retries, @catch_error handler that recovers / fails itself, workflow timeout, cancel_handler at every quiescent point, cancel racing the timeout) on the real server stack over MemoryWorkflowStore and SqliteWorkflowStore x 0-2 transient failures of handler-record writes and of event-log writes at explorer-chosen attempts (inside the [0.5, 3] s backoff budget) x all schedules within the deviation bound incl. timer firings; every status written is logged (terminal never followed by running) and the final handler record is compared with how the engine's run task actually ended.",
             "Store faults are bounded to what _retry_store_write is documented to absorb (<= 2 consecutive); a store that keeps failing is outside the property. The idle-release timer never fires here (C26/C36). Fixes f78db87 and 7a6f378 repaired the two unretried store writes this check found.", ENGINE_TECH.replace("the real control loop", "the real server stack")),
 })
 
